@@ -60,6 +60,8 @@ pub struct Ctx {
     pub replay_case: Option<Value>,
     /// under Miri / valgrind: time and heap oracles off, workloads small
     pub slow_tool: bool,
+    iters: u64,
+    stopped: bool,
 }
 
 impl Ctx {
@@ -83,6 +85,8 @@ impl Ctx {
             only: None,
             replay_case: None,
             slow_tool: false,
+            iters: 0,
+            stopped: false,
         }
     }
 
@@ -182,6 +186,21 @@ impl Ctx {
             format!("{} panicked at {}: {}", op, loc, p.message),
             case,
         );
+    }
+
+    /// Cheap per-iteration budget test for the long random families: true once the time budget is used up
+    /// (the run then reports what it observed so far and says so in `notes`).
+    pub fn stop(&mut self, family: &str) -> bool {
+        if self.stopped {
+            return true;
+        }
+        self.iters += 1;
+        if self.iters & 0x3FF == 0 && self.time_up() {
+            self.stopped = true;
+            self.notes.push(format!("time budget reached in family '{}': remaining random cases skipped", family));
+            return true;
+        }
+        false
     }
 
     pub fn time_up(&self) -> bool {
